@@ -158,16 +158,196 @@ fn c16_local_sid_schedule_k3() {
     local_sid_schedule::<3>();
 }
 
-#[kani::proof]
-#[kani::unwind(6)]
-#[kani::stub(ArcSendWakers::wake_all_by, stub_wake_all_by)]
-fn c16_local_sid_schedule_k4() {
-    local_sid_schedule::<4>();
+// ---------------------------------------------------------------------------------------------
+// Inductive formulation (schedules of ANY length). Ghost `asleep_on[t] = Some(d)`: task t's last
+// poll_alloc_sid(d) returned Pending and its waker has not been invoked since.
+//   INV:  asleep_on[t] == Some(d)  =>  unallocated[d] >= max[d]  &&  wakers[d] contains t's waker
+// INV holds initially (nobody asleep); each atomic step from ANY state satisfying INV
+// re-establishes it, hence no opener ever sleeps unwoken while an id of its direction is available.
+// Pre-state: arbitrary (max, unallocated) <= 2^60, each wakers[d] = arbitrary sequence of <= 2
+// wakers of tasks {0,1} (duplicates allowed: a task may poll twice).
+
+struct Pre {
+    ids: LocalStreamIds<BlockedSink>,
+    role: Role,
+    max: [u64; 2],
+    unalloc: [u64; 2],
+    asleep_on: [Option<Dir>; 2],
+}
+
+fn contains_waker(q: &VecDeque<Waker>, t: usize) -> bool {
+    let w = waker(t);
+    let mut found = false;
+    let mut i = 0;
+    while i < 4 {
+        if let Some(x) = q.get(i) {
+            if x.will_wake(&w) {
+                found = true;
+            }
+        }
+        i += 1;
+    }
+    found
+}
+
+fn inv(p: &Pre) -> bool {
+    let mut ok = true;
+    let mut t = 0;
+    while t < 2 {
+        if let Some(d) = p.asleep_on[t] {
+            let d = d as usize;
+            if !(p.ids.unallocated[d] >= p.ids.max[d] && contains_waker(&p.ids.wakers[d], t)) {
+                ok = false;
+            }
+        }
+        t += 1;
+    }
+    ok
+}
+
+fn any_pre() -> Pre {
+    let role = if kani::any() { Role::Client } else { Role::Server };
+    let mut ids = LocalStreamIds::new(role, 0, 0, BlockedSink, ArcSendWakers::new());
+    let m0: u64 = kani::any();
+    let m1: u64 = kani::any();
+    let u0: u64 = kani::any();
+    let u1: u64 = kani::any();
+    kani::assume(m0 <= MAX_STREAMS_LIMIT && m1 <= MAX_STREAMS_LIMIT);
+    kani::assume(u0 <= MAX_STREAMS_LIMIT && u1 <= MAX_STREAMS_LIMIT);
+    ids.max = [m0, m1];
+    ids.unallocated = [u0, u1];
+    // registered wakers: per direction 0..=2 entries, each of task 0 or 1
+    let mut d = 0;
+    while d < 2 {
+        let n: usize = kani::any();
+        kani::assume(n <= 2);
+        let mut k = 0;
+        while k < 2 {
+            if k < n {
+                if kani::any() {
+                    ids.wakers[d].push_back(waker(0));
+                } else {
+                    ids.wakers[d].push_back(waker(1));
+                }
+            }
+            k += 1;
+        }
+        d += 1;
+    }
+    let a0: u8 = kani::any();
+    let a1: u8 = kani::any();
+    kani::assume(a0 < 3 && a1 < 3);
+    let to_dir = |a: u8| match a {
+        0 => None,
+        1 => Some(Dir::Bi),
+        _ => Some(Dir::Uni),
+    };
+    let p = Pre { ids, role, max: [m0, m1], unalloc: [u0, u1], asleep_on: [to_dir(a0), to_dir(a1)] };
+    kani::assume(inv(&p));
+    p
+}
+
+/// One poll_alloc_sid(task T, direction D) from any INV state.
+fn step_poll<const T: usize, const D: usize>() {
+    let mut p = any_pre();
+    let dir = DIRS[D];
+    if let Some(d) = p.asleep_on[T] {
+        kani::assume(d == dir); // a sleeping task re-polls the allocation it is waiting for
+    }
+    let before = [wakes(0), wakes(1)];
+    let w = waker(T);
+    let mut cx = Context::from_waker(&w);
+    let sent_before = unsafe { BLOCKED_SENT };
+    let r = p.ids.poll_alloc_sid(&mut cx, dir);
+    match r {
+        Poll::Pending => {
+            assert!(p.unalloc[D] >= p.max[D], "Pending only when the limit is exhausted");
+            assert!(unsafe { BLOCKED_SENT } == sent_before + 1, "one STREAMS_BLOCKED per blocked poll");
+            assert!(unsafe { BLOCKED_LAST } == Some(StreamsBlockedFrame::with(dir, VarInt::from_u64(p.max[D]).unwrap())));
+            assert!(p.ids.unallocated[D] == p.unalloc[D]);
+            p.asleep_on[T] = Some(dir);
+        }
+        Poll::Ready(Some(sid)) => {
+            assert!(p.unalloc[D] < p.max[D]);
+            assert!(sid == StreamId::new(p.role, dir, p.unalloc[D]), "the next unused id of that direction");
+            assert!(p.ids.unallocated[D] == p.unalloc[D] + 1);
+            assert!(unsafe { BLOCKED_SENT } == sent_before);
+            p.asleep_on[T] = None;
+        }
+        Poll::Ready(None) => assert!(false, "ids not exhausted within MAX_STREAMS_LIMIT"),
+    }
+    assert!(p.ids.max[0] == p.max[0] && p.ids.max[1] == p.max[1]);
+    assert!(p.ids.unallocated[1 - D] == p.unalloc[1 - D]);
+    assert!(wakes(0) == before[0] && wakes(1) == before[1], "polling wakes nobody");
+    assert!(inv(&p), "INV re-established: a Pending poll leaves the task registered; other sleepers untouched");
+    kani::cover!(p.asleep_on[T].is_some() && p.asleep_on[1 - T].is_some(), "both tasks asleep");
+    kani::cover!(p.asleep_on[T].is_none() && p.asleep_on[1 - T] == Some(DIRS[1 - D]), "id granted while the other task sleeps on the other direction");
+    core::mem::forget(p);
+}
+
+/// One increase_limit / MAX_STREAMS frame for direction D from any INV state.
+fn step_limit<const D: usize>() {
+    let mut p = any_pre();
+    let dir = DIRS[D];
+    let val: u64 = kani::any();
+    kani::assume(val <= MAX_STREAMS_LIMIT);
+    let before = [wakes(0), wakes(1)];
+    let raised_before = unsafe { WRITTEN_RAISED };
+    if kani::any() {
+        p.ids.increase_limit(dir, val);
+    } else {
+        p.ids.recv_max_streams_frame(MaxStreamsFrame::with(dir, VarInt::from_u64(val).unwrap()));
+    }
+    let grew = val > p.max[D];
+    assert!(p.ids.max[D] == if grew { val } else { p.max[D] }, "limit never decreases");
+    assert!(p.ids.max[1 - D] == p.max[1 - D] && p.ids.unallocated[0] == p.unalloc[0] && p.ids.unallocated[1] == p.unalloc[1]);
+    let expect_written = grew && p.max[D] < p.unalloc[D];
+    assert!(unsafe { WRITTEN_RAISED } == raised_before + if expect_written { 1 } else { 0 });
+    let mut t = 0;
+    while t < 2 {
+        let woken = wakes(t) != before[t];
+        if p.asleep_on[t] == Some(dir) && grew {
+            assert!(woken, "raising the limit wakes every opener sleeping on that direction");
+        }
+        if !grew {
+            assert!(!woken, "a MAX_STREAMS frame that does not raise the limit wakes nobody");
+        }
+        if woken {
+            p.asleep_on[t] = None;
+        }
+        t += 1;
+    }
+    assert!(inv(&p), "INV re-established");
+    kani::cover!(grew && p.asleep_on[0].is_none() && wakes(0) != before[0] && wakes(1) != before[1], "two sleepers woken");
+    kani::cover!(grew && p.asleep_on[0] == Some(DIRS[1 - D]), "limit of the other direction raised: sleeper stays asleep");
+    kani::cover!(!grew && p.asleep_on[1] == Some(dir), "MAX_STREAMS that does not raise the limit is ignored");
+    core::mem::forget(p);
 }
 
 #[kani::proof]
 #[kani::unwind(6)]
 #[kani::stub(ArcSendWakers::wake_all_by, stub_wake_all_by)]
-fn c16_local_sid_schedule_k2() {
-    local_sid_schedule::<2>();
+fn c16_local_sid_step_poll_bi() {
+    step_poll::<0, 0>();
+}
+
+#[kani::proof]
+#[kani::unwind(6)]
+#[kani::stub(ArcSendWakers::wake_all_by, stub_wake_all_by)]
+fn c16_local_sid_step_poll_uni() {
+    step_poll::<1, 1>();
+}
+
+#[kani::proof]
+#[kani::unwind(6)]
+#[kani::stub(ArcSendWakers::wake_all_by, stub_wake_all_by)]
+fn c16_local_sid_step_limit_bi() {
+    step_limit::<0>();
+}
+
+#[kani::proof]
+#[kani::unwind(6)]
+#[kani::stub(ArcSendWakers::wake_all_by, stub_wake_all_by)]
+fn c16_local_sid_step_limit_uni() {
+    step_limit::<1>();
 }
